@@ -90,7 +90,7 @@ theorem resumption_anywhere_full {cfg : Cfg} {G : Block} (E : StaticOK cfg.st G)
     AMap.Equiv B.P.led.sync A.P.led.sync ∧ B.P.led.syncedTo = A.P.led.syncedTo ∧ B.V.led.best = A.V.led.best ∧
     (∀ w' ∈ walletsOf A.P.ks, AMap.get B.P.led.balance w' = AMap.get A.P.led.balance w' ∧
       readyB B.P.led w' = true ∧ readyB A.P.led w' = true) := by
-  obtain ⟨hshort, hqs, hph⟩ := JT_run E hG hb hl true evs x0 k0 hJ hR hg
+  obtain ⟨hshort, hqs, _, hph⟩ := JT_run E hG hb hl true evs x0 k0 hJ hR hg
   unfold Phase at hph
   rw [hbusy] at hph
   exact ⟨(JI_crash E hph).2.2, resumption_anywhere_import E hb hph hshort fuel hfuel⟩
